@@ -428,7 +428,18 @@ impl StreamSocket {
                     let segment = self.buf.swap_remove(&self.recv_seq).unwrap();
                     permit.send(segment)
                 }
-                Err(Closed(())) => return Err(Protocol::Tcp(Segment::Rst)),
+                // The read half has been dropped. Data can no longer be
+                // delivered, so the peer is reset; a FIN carries nothing to
+                // deliver and only says the peer will send no more. Resetting
+                // the peer for it would discard what this side, still
+                // writing through its write half, has sent and not yet had
+                // read.
+                Err(Closed(())) => {
+                    if matches!(self.buf.swap_remove(&self.recv_seq), Some(SequencedSegment::Fin)) {
+                        continue;
+                    }
+                    return Err(Protocol::Tcp(Segment::Rst));
+                }
                 Err(Full(())) => {
                     self.recv_seq -= 1;
                     break;
